@@ -23,8 +23,10 @@ class Disp:
         esc = re.escape
         self.call = F.one(r'^<%s::Dispatcher<T, C, E> as ntex_service::Service<%s>>::call::\{closure#0\}$' % (esc(self.mod), esc(self.decoded)))
         self.publish_fn = F.one(r'^%s::publish_fn::\{closure#0\}$' % esc(self.mod))
-        self.control = F.one(r'^%s::Inner::<C>::control::\{closure#0\}$' % esc(self.mod))
         self.control_pkt = F.body('%s::Inner::<C>::control_pkt::{closure#0}' % self.mod)
+        # MQTT 5: `control` is a one-line wrapper `control_pkt(pkt, <no id>)`; a tree that calls control_pkt directly has none
+        self.control = (F.body('%s::Inner::<C>::control::{closure#0}' % self.mod) if self.control_pkt else None) or self.control_pkt \
+            or F.one(r'^%s::Inner::<C>::control::\{closure#0\}$' % esc(self.mod))
         self.shutdown = F.one(r'^<%s::Dispatcher<T, C, E> as ntex_service::Service<%s>>::shutdown::\{closure#0\}$' % (esc(self.mod), esc(self.decoded)))
         self.ready = F.one(r'^<%s::Dispatcher<T, C, E> as ntex_service::Service<%s>>::ready::\{closure#0\}$' % (esc(self.mod), esc(self.decoded)))
         self._dec = variant_edges(F, self.call, self.decoded)
@@ -34,7 +36,7 @@ class Disp:
     def bodies(self):
         """Coroutines that together implement request handling."""
         out = [self.call, self.publish_fn, self.control]
-        if self.control_pkt:
+        if self.control_pkt and self.control_pkt is not self.control:
             out.append(self.control_pkt)
         return out
 
